@@ -6,7 +6,40 @@ import (
 	"encoding/json"
 	"net"
 	"os"
+	"strings"
+	"time"
 )
+
+// NSQ_VERIF_HOLD="point[,point...]": every goroutine that reaches one of these points
+// waits there until no Notify goroutine is pending (notify:spawn == notify:done), at most
+// 5 s.  This pins the legal schedule "the persist triggered by Notify runs before the
+// caller continues", e.g. before DeleteExistingTopic removes the topic from its map.
+func init() {
+	spec := os.Getenv("NSQ_VERIF_HOLD")
+	if spec == "" {
+		return
+	}
+	wait := func() {
+		deadline := time.Now().Add(5 * time.Second)
+		for time.Now().Before(deadline) {
+			verifMu.Lock()
+			a, b := verifHits["notify:spawn"], verifHits["notify:done"]
+			verifMu.Unlock()
+			if a == b {
+				return
+			}
+			time.Sleep(50 * time.Microsecond)
+		}
+	}
+	for _, name := range strings.Split(spec, ",") {
+		if name == "" {
+			continue
+		}
+		for k := 1; k <= 256; k++ {
+			VerifArmFunc(name, k, wait)
+		}
+	}
+}
 
 // Verification-only status socket for subprocess daemons (property C06, metadata
 // persistence): when NSQ_VERIF_SOCK names a path, a unix socket is opened there and
